@@ -45,6 +45,8 @@ THEOREMS = [
         "table_unknown_uses_mean", "table_no_exception_in_contract",
         # result level (filter_object_results): totality in the contract, monotonicity in the bounds, frame invariance
         "filterResults_total", "filterResults_mono", "resultTarget_frame_invariant", "filterResults_frame_invariant",
+        # locality: every element is judged on its own (no state from one element to the next, position is no criterion)
+        "filterE_append", "filter_append", "filterResults_append", "filter_singleton", "filter_length",
     ]
 ]
 RULE = (
@@ -343,6 +345,12 @@ def run_impl(case):
     kept_ids = list(out["kept"])
     r2 = _call(lambda: run(kept_list, kw))
     out["twice"] = _ids(r2["ok"], kept_list, kept_ids) if "ok" in r2 else {"err": r2["err"]}
+    # locality (theorems filter_append / filter_singleton): the fate of an object does not depend on its position or its
+    # neighbours -- the real filter on the reversed input keeps the reverse
+    rev_items = list(reversed(items))
+    r4 = _call(lambda: run(rev_items, kw))
+    if "ok" in r4:
+        out["rev"] = _ids(r4["ok"], rev_items, list(reversed(ids)))
     # monotonicity: the real filter under widened bounds
     if case.get("wider") is not None:
         r3 = _call(lambda: run(items, _mk_params(case["wider"])))
@@ -962,6 +970,9 @@ def oracle(case, out):
         f = _check_kept(kept, exp, "kept set")
         if f:
             return f
+        # "containing exactly the objects whose ...": an object's fate is its own (position in the list is no criterion)
+        if out.get("rev") is not None and out["rev"] != list(reversed(kept)):
+            return f"the reversed input keeps {out['rev']}, not the reverse of {kept}"
     # "widening any bound never removes an object that was kept"
     if "wider" in out and case.get("wider") is not None:
         w = out["wider"]
